@@ -155,7 +155,7 @@ def known_for(regs, prop, kind):
         ("F10", ("exhaust:missing-all", "agree:sat-empty", "random-exception:AssertionError", "trialcount", "count",
                  "mismatch:trial_count", "mismatch:crossing", "distinct")),
         ("F18", ("random-exception:KeyError",)),
-        ("F22", ("exhaust", "agree", "sound", "sat-exception:IndexError", "count", "trialcount", "mismatch", "law")),
+        ("F22", ("exhaust", "agree", "sound", "sat-exception:IndexError", "random-exception:IndexError", "count", "trialcount", "mismatch", "law")),
         ("F19", ("exhaust", "agree", "sound:derived", "sat-exception:RuntimeError", "count")),
         ("U1", ("agree", "exhaust", "sound:constraint", "mismatch")),
         ("F26", ("mismatch:KeyError",)),
